@@ -360,6 +360,23 @@ HUGE_SOURCES = [
     "{% assign y = -" + HUGE + " %}{{ y }}", "{{ (1..3) | slice: -" + HUGE + " }}", "{{ 1e4300 }}", "{{ -1e4300 }}", "{{ 12e4299 }}", "{{ 1e4299 | size }}",
 ]  # fmt: skip
 
+def boundary_sources() -> list[str]:
+    """Integer literals in exponent form whose digit count straddles the interpreter's int -> str limit (4300 digits),
+    x mantissa shapes, at every site that may print, compare, count with or index by the literal itself."""
+    lits = []
+    for digits in (4299, 4300, 4301, 4302):
+        for mant in ("1", "25", "123", "-10", "-7"):
+            lits.append(mant + "e" + str(digits - len(mant.lstrip("-"))))
+    sites = [
+        "{{ L }}", "{% cycle L, 2 %}", "{% cycle L: 1, 2 %}{% cycle L: 1, 2 %}", "{% for i in (L..L) %}{{ i }}{% endfor %}", "{% for i in (1..L) limit: 2 %}{{ i }}{% endfor %}",
+        "{% for i in (L..3) %}{{ i }}{% endfor %}", "{% for i in b limit: L %}{{ i }}{% endfor %}", "{% for i in b offset: L %}{{ i }}{% endfor %}", "{% assign y = L %}{{ y }}{{ y | json }}",
+        "{{ x | plus: L }}", "{{ b[L] }}", "{% case x %}{% when L %}w{% endcase %}", "{% if x == L or L > 1 %}y{% endif %}", "{{ L | size }}{{ L | json }}{{ L | times: 1 }}", "{{ (L..L) }}{{ (1..L) | first }}",
+        "{% tablerow i in (L..L) cols: L %}{{ i }}{% endtablerow %}", "{% increment L %}", "{% render 'p', a: L %}{% include 'p' with L as a %}", "{% macro m q: L %}{{ q }}{% endmacro %}{% call m %}{% call m L %}",
+        "{{ 'v ${L}' }}", "{% liquid echo L\ncycle L, 1 %}", "{{ b | slice: L }}{{ 'abc' | truncate: L }}", "{% with q: L %}{{ q }}{% endwith %}", "{{ L if x else L || default: L }}",
+    ]
+    return [s_.replace("L", lit) for s_ in sites for lit in lits]
+
+
 # inputs behind repaired defects (kept in the corpus so that each stays decided)
 REGRESSION_SOURCES = [
     "{% if 'abc' contains a %}y{% endif %}{% if a in 'abc' %}y{% endif %}", "{{ a | map: x: 1 => 2 }}", "{{ a | where: x: 'k' => x }}",
@@ -606,7 +623,7 @@ def _prepare(tier: str) -> None:
         # (parse + render of every mutant: the sources of <= 120 characters; every source is run unmutated)
         corp_m = [s for s in corp if len(s) <= 120]
         inserts = c17.SIGMA
-    corp = list(corp) + HUGE_SOURCES + REGRESSION_SOURCES
+    corp = list(corp) + HUGE_SOURCES + REGRESSION_SOURCES + boundary_sources() + c17.path_word_sources()
     _SP.update(tier=tier, corpus=corp, corp_m=corp_m, inserts=inserts, pumps=pumps(), escapes=escape_sources(tier))
 
 
